@@ -554,3 +554,25 @@ if __name__ == "__main__":
         print("vacuity:", res.get("vacuity"))
         print("identity:", res.get("identity"))
         print("wall:", res.get("wall"))
+
+
+def advisories(res, verif=None):
+    """conditions under which a pass (or a failure) of some properties cannot be trusted: never alarms, always UNDECIDED.
+    Returns [{"kind", "props": set of property ids, "reason"}]."""
+    verif = verif or os.path.dirname(os.path.dirname(os.path.abspath(__file__)))
+    out = []
+    meta = res.get("meta", {}) or {}
+    fn_props = res.get("fn_props", {}) or {}
+    try:
+        pins = json.load(open(os.path.join(verif, "contracts", "external_pins.json")))
+    except (OSError, ValueError):
+        pins = {}
+    for f in meta.get("functions", []):
+        if f.get("external") and f["key"] in pins and pins[f["key"]] != f["tokhash"] and f["key"] not in (res.get("demoted") or []):
+            out.append({"kind": "assumed-function-changed", "props": set(fn_props.get(f["key"], [])) | set(f.get("stake", [])),
+                        "reason": "assumed (external_body) function %s differs from the text its contract was written for: the assumption no longer applies" % f["key"]})
+    un = meta.get("unspecified_iterator_methods", [])
+    if un:
+        out.append({"kind": "iterator-method-without-contract", "props": {"C08", "C13", "C14"},
+                    "reason": "iterator method(s) without a contract: %s -- an override of a provided Iterator method changes what is yielded and no clause covers it" % ", ".join(u["fn"] for u in un)})
+    return out
